@@ -222,11 +222,13 @@ func main() {
 		}
 		// a function whose contract has a postcondition tagged with this property (ensures[l]{P,...}) although the
 		// function itself is listed under other properties is verified here for those tagged clauses only
+		tagEnsures := map[string]bool{}
 		for _, k := range db.Order {
 			if fs := db.Funcs[k]; fs != nil && !hasProp(fs.Props, *prop) && !fs.IsIface && !fs.Assumed {
 				for _, c := range fs.Ensures {
 					if hasProp(c.Props, *prop) {
 						guardOnly[k] = true
+						tagEnsures[k] = true
 					}
 				}
 			}
@@ -258,6 +260,11 @@ func main() {
 					var keepO []*Obl
 					for _, o := range rep.Obls {
 						if hasProp(o.Props, *prop) && (!guardOnly[key] || o.Tagged || o.Kind == "cover") {
+							keepO = append(keepO, o)
+						} else if tagEnsures[key] && (strings.HasPrefix(o.Kind, "loop") || strings.HasSuffix(o.Kind, ".requires")) {
+							// the tagged postconditions of this function are proved from its loop invariants and from its
+							// callees' contracts: establishing the invariants and the callees' preconditions belongs to
+							// the same claim (its other obligations — no-panic, frame, untagged clauses — do not)
 							keepO = append(keepO, o)
 						}
 					}
